@@ -34,13 +34,16 @@ CLAIMED["C05"] = {
             "candidates select equal-key candidates; the recommended state equals an independently written Figure 33 for every own "
             "data set, Ebest, Erbest and prior state; S1 carries Ebest; a port handed S1 is afterwards Slave of the sender of the selected "
             "Announce (also when it was Slave of another port of the same clock) and after every BMCA run over all ports every Slave port "
-            "is bound to the parent the data sets name (s1_binds_port_to_parent, bmca_binds_slaves_to_the_parent). The unrestricted transitivity claim is refuted by a kernel-checked "
+            "is bound to the parent the data sets name (s1_binds_port_to_parent, bmca_binds_slaves_to_the_parent). dataset_comparison.rs is "
+            "translated on every run into Lean data (chain of Figure 34, arms of Figure 35, dispatch, as_ordering, both constructors) and the "
+            "interpretation of that translation is proved equal to the model's comparison for all data sets (generated_compare_is_model, "
+            "generated_as_ordering_is_model, generated_of_announce_is_model, generated_of_own_is_model). The unrestricted transitivity claim is refuted by a kernel-checked "
             "witness (IEEE's algorithm itself). Tie: exhaustive/random CMP stream, BMCA scenarios through real ports and the mixed stream, "
             "all compared with the model (port states, the master each Slave port listens to — hook verif_remote_master — and every data set); "
             "independent Rust transcription of Figures 34/35, an order-permutation oracle and a slave-bound-to-parent oracle on the implementation.",
     "note": "Trusted: Lean kernel; Spec/StateDecision.lean; generators. Instance-level permutation invariance of the whole bmca() call is "
             "validated by the oracle, proved only for the selection function (findBest_perm).",
-    "technique": "Lean 4 theorems (order characterisation, fold invariant, case analysis) + differential correspondence through PtpInstance::bmca",
+    "technique": "Lean 4 theorems (order characterisation, fold invariant, case analysis) + the data set comparison translated from the source on every run and proved equal to the model + differential correspondence through PtpInstance::bmca",
 }
 
 CLAIMED["C06"] = {
